@@ -81,6 +81,30 @@ def run(chk):
         if st != "ok":
             chk.violation("valid-shape-became-error", dict(desc, error=st)); continue
         compare3d(chk, a, b, R, s, t, desc, rng)
+    # ------------------------------------------------------------------ axis-aligned convex polygons turned in their own plane
+    # (exactly horizontal / vertical edges take special branches in distance_to_surface; the turned copy takes the generic one)
+    for _ in range(max(4, n // 4)):
+        a_, b_ = float(rng.integers(1, 7)), float(rng.integers(1, 7))
+        base = rng.choice(["rectangle", "right-triangle", "axis-trapezium"])
+        P = {"rectangle": [[0, 0], [a_, 0], [a_, b_], [0, b_]], "right-triangle": [[0, 0], [a_, 0], [0, b_]],
+             "axis-trapezium": [[0, 0], [a_ + b_, 0], [a_, b_], [0, b_]]}[base]
+        V = np.c_[np.array(P, float) + gen.dy(rng.uniform(-3, 3, 2), 3) * rng.choice([0.0, 1.0]), np.zeros(len(P))]
+        st, a = C.excname(S.ConvexPolygon, V)
+        if st != "ok":
+            continue
+        qz = [int(rng.integers(1, 5)), 0, 0, int(rng.choice([-3, -2, -1, 1, 2, 3]))]
+        M, nq = gen.rot_from_quat(qz, integer=True)
+        R = M / nq
+        s = 2.0 ** int(rng.integers(-2, 3))
+        t = gen.dy(rng.uniform(-4, 4, 3), 4) * np.array([1.0, 1.0, 0.0])
+        W = s * V @ R.T + t
+        chk.case(["ConvexPolygon", base, V.tolist(), qz], True)
+        chk.count("cls:ConvexPolygon(axis-aligned, turned in plane)")
+        desc = dict(cls="ConvexPolygon", kind=base, vertices=V.tolist(), linear=(s * R).tolist(), translation=t.tolist(), scale=s, shift=0)
+        st, b, msg = excmsg(S.ConvexPolygon, W, np.array([0.0, 0.0, 1.0]))
+        if st != "ok":
+            chk.violation("valid-shape-became-error", dict(desc, error=st, message=msg[:200])); continue
+        compare2d(chk, a, b, R, s, t, desc, rng)
     # ------------------------------------------------------------------ polygons
     for _ in range(n):
         kind, P = gen.simple_polygon(rng)
@@ -356,7 +380,7 @@ def compare2d(chk, a, b, R, s, t, desc, rng):
     if desc["cls"] == "ConvexPolygon" and abs(abs((R @ np.array([0, 0, 1.0]))[2]) - 1) < 1e-12 and (R @ np.array([0, 0, 1.0]))[2] > 0:
         # in-plane rotation: distance_to_surface(theta + phi) on g(x) = s * distance_to_surface(theta) on x
         phi = math.atan2(R[1, 0], R[0, 0])
-        th = np.array([0.1, 1.0, 2.5, 4.0, 5.5])
+        th = np.array([0.1, 1.0, 2.5, 4.0, 5.5, 0.0, math.pi / 2, math.pi, -math.pi / 2, 0.7, 2.0, 3.3, 4.6])
         da, db = C.excname(a.distance_to_surface, th.copy()), C.excname(b.distance_to_surface, th + phi)
         if da[0] != db[0] or (da[0] == "ok" and not close(db[1], s * np.asarray(da[1]))):
             chk.violation("not-covariant:distance_to_surface", dict(desc, before=None if da[0] != "ok" else np.asarray(da[1]).tolist(), after=None if db[0] != "ok" else np.asarray(db[1]).tolist()))
